@@ -14,6 +14,10 @@ type Exec struct {
 	Check func(out *Outcome) (violations []string, outcomeSig uint64)
 	// Invariant is evaluated at every scheduling step with all workers parked.
 	Invariant func(s *Sched) string
+	// OnStuck (optional) is called for an execution that ended in a deadlock or a
+	// livelock - a final state, nothing further can happen - and returns the
+	// violations that this final state implies ("<property>: message").
+	OnStuck func(out *Outcome) []string
 }
 
 type Violation struct {
@@ -66,6 +70,9 @@ func (e *Explorer) runOnce(prefix []int, visited map[uint64]int8, trace bool) (*
 	if !out.Cut && out.Deadlock == "" && out.Panic == "" && out.InvFail == "" && !out.StepCap && x.Check != nil {
 		viol, sig = x.Check(out)
 	}
+	if (out.Deadlock != "" || out.StepCap) && x.OnStuck != nil {
+		viol = x.OnStuck(out)
+	}
 	return out, viol, sig
 }
 
@@ -116,11 +123,17 @@ func (e *Explorer) Explore() []Violation {
 			add("panic", out.Panic)
 		case out.Deadlock != "":
 			add("deadlock", out.Deadlock)
+			for _, m := range ov {
+				add("oracle", m)
+			}
 		case out.InvFail != "":
 			add("invariant", out.InvFail)
 		case out.StepCap:
 			st.StepCaps++
 			add("stepcap", out.StepCapMsg)
+			for _, m := range ov {
+				add("oracle", m)
+			}
 		default:
 			st.Complete++
 			st.Outcomes[sig]++
